@@ -86,8 +86,10 @@ def gen_problem(rng, scalar=None, family=None, N=None, S=None, ctor=None, weight
         r = rng.random()
         if r < 0.06 and family not in RANKDEF:
             N = M                                   # square system: exact interpolation, zero residual
-        elif r < 0.11:
-            N = rng.choice([17, 33, 65])            # long: beyond any small block / chunk size
+        elif r < 0.11 and quant is not None:
+            # long: beyond any small block / chunk size (only with the small dyadic model values: exact rational arithmetic on 65 rows
+            # of 53-bit values took half an hour per check)
+            N = rng.choice([17, 33])
         else:
             N = rng.randint(M + 1, M + 6)
     ctor = ctor or rng.choice(["new", "mrhs", "new_parallel", "mrhs_parallel"])
